@@ -33,7 +33,7 @@ TClose == /\ IsEvent("close")
 TEof == /\ IsEvent("eof")
         /\ closed = Other(Ev.side)
         /\ Expect(Ev.prefix, "relayed-bytes-differ-or-out-of-order")
-        /\ Expect(Ev.how = "timeout" \/ Ev.got = sent[closed], "bytes-sent-before-close-lost")
+        /\ Expect(Ev.how = "timeout" \/ Ev.got = sent[closed], "byte-count-at-eof-differs-from-bytes-sent")
         /\ dlv' = [dlv EXCEPT ![closed] = Ev.got] /\ eof' = TRUE
         /\ UNCHANGED <<sent, unsynced, closed, hist>>
 
